@@ -55,11 +55,63 @@ func c17Check(str string, offset int) {
 		vassert(refValidUTF8(linestr), "the excerpt never splits a UTF-8 sequence")
 	}
 	vassert(0 <= column && column <= len(linestr), "the caret column lies within the excerpt")
-	if pos >= start && pos < end && column < len(linestr) {
+	if pos >= start && pos < end && column < len(linestr) && c17Printable(linestr) {
 		vassert(linestr[column] == str[pos], "the caret stands under the offending character")
 		vreach("caret")
 	}
 	_ = formatLineInfo(linestr, line, column)
+	vreach("end")
+}
+
+func c17Printable(s string) bool {
+	for i := 0; i < len(s); i++ {
+		if s[i] < 0x20 || s[i] > 0x7e {
+			return false
+		}
+	}
+	return true
+}
+
+// H_C17_utf8: lines of multi-byte characters around the 48/64-byte excerpt window: the
+// excerpt is cut at character boundaries and the caret column counts display cells.
+func H_C17_utf8() {
+	chars := []string{"\u00e9", "\u3042", "\U0001F600", "a"}
+	ch := chars[nondetChoice(len(chars))]
+	k := []int{0, 15, 16, 17, 23, 24, 31, 32, 33}[nondetChoice(9)]
+	tail := []int{0, 5, 30}[nondetChoice(3)]
+	line := strings.Repeat(ch, k) + "X" + strings.Repeat(ch, tail)
+	str := "l1\n" + line + "\nl3"
+	// the offending byte is the X, or any character start
+	offset := nondetInt()
+	vassume(1 <= offset)
+	vassume(offset <= len(str)+1)
+	linestr, lineno, column := getLineByOffset(str, offset)
+	pos := offset - 1
+	wantLine, start, end := c17RefLine(str, pos)
+	vassert(lineno == wantLine, "the line number is 1 + the number of line terminators before the offending byte")
+	vassert(len(linestr) <= 64, "the excerpt is at most 64 bytes")
+	vassert(strings.Contains(str[start:end], linestr), "the quoted line is an excerpt of the offending byte's line")
+	vassert(refValidUTF8(linestr), "the excerpt never splits a UTF-8 sequence")
+	// width model for these characters: 1 for a and e-acute, 2 for the kana and the emoji
+	w := 1
+	if len(ch) >= 3 {
+		w = 2
+	}
+	if pos >= start && pos < end && (str[pos]&0xC0) != 0x80 {
+		// the byte starts a character: the excerpt contains it, preceded by column/w characters
+		n := column / w
+		if str[pos] == 'X' {
+			idx := strings.IndexByte(linestr, 'X')
+			vassert(idx >= 0, "the excerpt contains the offending character")
+			if idx >= 0 {
+				vassert(column == w*(idx/len(ch)), "the caret column is the display width of the excerpt before the offending character")
+			}
+			vreach("caret")
+		} else {
+			vassert(n*len(ch) <= len(linestr), "the caret column lies within the excerpt")
+		}
+	}
+	_ = formatLineInfo(linestr, lineno, column)
 	vreach("end")
 }
 
@@ -90,8 +142,14 @@ func H_C17_line() {
 // symbolic offset.
 func H_C17_long() {
 	pre := []string{"", "first\n", "a\r\nb\r"}[nondetChoice(3)]
-	k := []int{0, 40, 47, 48, 49, 50, 63, 64, 65, 90}[nondetChoice(10)]
-	m := []int{0, 1, 15, 16, 17, 40, 80}[nondetChoice(7)]
+	ks := []int{0, 47, 48, 49, 64, 65, 40, 50, 63, 90}
+	ms := []int{0, 16, 17, 40, 1, 15, 80}
+	nk, nm := 6, 4
+	if vparam("full", 0) == 1 {
+		nk, nm = len(ks), len(ms)
+	}
+	k := ks[nondetChoice(nk)]
+	m := ms[nondetChoice(nm)]
 	c := nondetByte()
 	vassume(0x21 <= c)
 	vassume(c <= 0x7e)
